@@ -1,0 +1,34 @@
+//go:build verif
+
+package isaacstates
+
+import (
+	"context"
+	"time"
+
+	"github.com/spikeekips/mitum/base"
+	"github.com/spikeekips/mitum/util"
+)
+
+// Verification hook (build tag "verif" only); passthroughs, nothing is
+// implemented here.
+
+// PrepareACCEPTBallotWithFact is defaultPrepareACCEPTBallot with a given ACCEPT
+// ballot fact, the way voteproofHandler calls it for the intended
+// empty-operations and not-processed ACCEPT ballots
+// (prepareACCEPTBallot(ivp, nil, wait, fact)).
+func (v *VerifBallotHandler) PrepareACCEPTBallotWithFact(
+	ivp base.INITVoteproof, fact base.ACCEPTBallotFact, wait time.Duration,
+) error {
+	return v.h.defaultPrepareACCEPTBallot(ivp, nil, wait, fact)
+}
+
+// SetNewINITBallotFactFunc sets NewINITBallotFactFunc of the handler's args
+// (e.g. to the function NewNewConsensusHandlerType installs in its args). To
+// be called before the first Prepare... call.
+func (v *VerifBallotHandler) SetNewINITBallotFactFunc(f func(
+	context.Context, base.Point, util.Hash, base.ProposalSignFact, []util.Hash,
+) (base.INITBallotFact, error),
+) {
+	v.h.args.NewINITBallotFactFunc = f
+}
